@@ -30,6 +30,10 @@ def configs(tier):
     cs = [cfg(), cfg("RECTANGLE"), cfg("BIRECTANGLE", loads={"kind": "heating", "scale": 25000, "seed": 2}), steep_cfg(2300.0, 5),
           # one borehole suffices, but only near the maximum height (fails at the minimum height, passes at the maximum)
           cfg(months=12, loads={"kind": "constant", "scale": 5400.0, "seed": 1, "sign": -1.0})]
+    # a lower limit of exactly 0 C (antifreeze loop, heating dominated: the lower limit is the binding one)
+    z0 = cfg("RECTANGLE", months=12, loads={"kind": "heating", "scale": 26000, "seed": 5}, flow=("BOREHOLE", 0.3), design={"min_eft": 0.0})
+    z0["fluid"] = {"fluid_name": "PROPYLENEGLYCOL", "concentration_percent": 25.0, "temperature": 2}
+    cs.append(z0)
     if tier != "quick":
         cs += [cfg("BIZONEDRECTANGLE"), cfg("BIRECTANGLECONSTRAINED"),
                cfg("NEARSQUARE", "COAXIAL", loads={"kind": "cooling", "scale": 40000, "seed": 3}),
